@@ -13,7 +13,7 @@ CASE_TIMEOUT = 30.0
 RULE = ('bpch contents with 1-3 time blocks x 1-3 tracers in 1-3 categories, nx,ny 1-3, per-tracer layer counts 1-3 (rarely 48/49), nested-grid '
         'offsets, tracerinfo.dat/diaginfo.dat generated as text (category offsets 0/100/1000/2000, entries present or missing); three directions: '
         'rw = reference-encoded file -> bpch1 (noscale or scaled) -> ncf2bpch; wr = hand-built bpch-convention file -> ncf2bpch -> bpch1; '
-        'b2 = bpch2 AND bpch1 on the same file (60% with complete tables, else any tables), both evaluated in Coq. Data: arbitrary finite binary32 patterns (noscale) or small dyadic values whose product with SCALE is exact (scaled). '
+        'b2 = bpch2 AND bpch1 on the same file (60% with complete tables, else any tables incl. missing categories / tracer numbers), both evaluated in Coq. Data: arbitrary finite binary32 patterns (noscale) or small dyadic values whose product with SCALE is exact (scaled). '
         'Malformed stream: byte truncations (random, block/time-block boundaries +-, one header further; S = every-prefix alternatives), trailing words, edits of record markers / tracer ids / categories / skip / dims / title markers. '
         'Non-trivial = library opened the file and presented >= 1 variable.')
 TRUSTED = ['numpy structured dtype over a memmap = fixed-size chunking (modelled by chunks/firstn/skipn)',
@@ -23,18 +23,17 @@ TRUSTED = ['numpy structured dtype over a memmap = fixed-size chunking (modelled
            'variable keys "<category>_<name>" are mapped back to (category, name index) by the harness; names are alphabetic']
 ASSUMPTIONS = ['table keys unique (tracer numbers in tracerinfo.dat, categories in diaginfo.dat); no two tracers of a file share offset+id',
                'one model grid per file and one time stamp per time block (what GEOS-Chem writes)']
-LEVEL_TEXT = ('Theorems (Props/C18.v, 13, all closed under the global context) over Model/Bpch.v (both readers and the writer as repaired): the record-walking spec '
-              'decoder inverts the spec encoder for every content (C18_dec_enc); for EVERY bpch-convention content and tables with unique keys the model of bpch1 (header '
-              'walk, time_type strides, itemcount, assertions; field positions from the translated dtype literals) presents exactly the content '
+LEVEL_TEXT = ('Theorems (Props/C18.v, 12, all closed under the global context; no _partial) over Model/Bpch.v (both readers and the writer as repaired): the '
+              'record-walking spec decoder inverts the spec encoder for every content (C18_dec_enc); for EVERY bpch-convention content and tables with unique keys the model '
+              'of bpch1 (header walk, time_type strides, itemcount, assertions; field positions from the translated dtype literals) presents exactly the content '
               '(C18_reader_presents_content), ncf2bpch reproduces the words (C18_read_write_bytes, C18_writer_conforms), writing any bpch-convention view and reading it '
               'back returns it (C18_write_read); the dict-based name/scale/unit lookup is the offset(category)+id association (C18_scale_lookup, '
               'C18_lookup_is_association); layouts and pads agree (C18_layouts, re-checked against the source on every run). CLAUSE 4: the model of the block-walking '
-              'reader bpch2 (walk over every block, groups by key in order of first appearance, first-row table lookups) presents a closed form '
-              '(C18_bpch2_presents_content_partial) and the SAME variables, time stamps and data as bpch1 (C18_readers_agree_partial) for every file whose categories and '
-              'tracer numbers are all in the tables and whose time stamps differ; without table completeness it raises (C18_readers_agree_refuted, witness replays: '
-              'finding C18-bpch2-missing-table-entry). EVERY BYTE PREFIX (C18_every_prefix; C18_prefix_whole_time_blocks_only_refuted). Tie T: dtype literals, pads and '
-              'skip regenerated from _bpch.py into coq/Gen/Bpch.v; tie H: reference encoder == Coq enc, bpch1 == impl_open (incl. errors on the malformed stream), '
-              'ncf2bpch == impl_write, bpch2 == impl_bpch2 on every case.')
+              'reader bpch2 (walk over every block, groups by key in order of first appearance, first-row table lookups with bpch1\'s fallbacks) presents a closed form '
+              '(C18_bpch2_presents_content) and the SAME variables, time stamps and data as bpch1 for every bpch-convention file (C18_readers_agree). EVERY BYTE PREFIX '
+              '(C18_every_prefix; C18_prefix_whole_time_blocks_only_refuted = C14 finding, not a C18 clause). Tie T: dtype literals, pads and skip regenerated from _bpch.py '
+              'into coq/Gen/Bpch.v; tie H: reference encoder == Coq enc, bpch1 == impl_open (incl. errors on the malformed stream), ncf2bpch == impl_write, bpch2 == '
+              'impl_bpch2 (units compared by text: bpch2 presents header units as str, bpch1 as bytes) on every case.')
 LEVEL_NOTE = ('Trusted: Coq kernel + vm_compute, py2coq and the driver normalisation, the harness (observation of the library object, string pools). Scaled WRITE '
               '(vals / scale) is checked on exact values by correspondence only; inexact binary32 scaling is decided by a Python oracle.')
 TECHNIQUE = 'Coq proof (codec round trip, reader/writer model refinement over Fortran record framing) + translation from source + differential correspondence'
@@ -481,7 +480,7 @@ EMPTY_VIEW = '{| r_ftype := []; r_title := []; r_model := []; r_nx := 0; r_ny :=
 EMPTY_VIEW2 = '{| s_ftype := []; s_title := []; s_vars := []; s_taus := []; s_data := [] |}'
 
 
-def coq_vars(c, ovars, resv=True):
+def coq_vars(c, ovars, resv=True, text_units=False):
     names, units = pools(c)
     vs = []
     for v in ovars:
@@ -494,7 +493,9 @@ def coq_vars(c, ovars, resv=True):
         else:
             tn = '(TName (-1))'
         u = v['units']
-        if 's' in u:
+        if text_units:   # bpch2: every unit is a str; compared by text (Corr unit_text)
+            tu = '(UHdr %s)' % C.zlist(swords((u.get('s', u.get('b')) or '').ljust(40)[:40]))
+        elif 's' in u:
             tu = '(UTab %d)' % (units.index(u['s']) if u['s'] in units else -1)
         else:
             own = struct.pack('>10I', *v['unit0']).rstrip(b'\0').strip()
@@ -515,7 +516,7 @@ def coq_view2(c, obs):
     b2 = obs.get('b2') or {}
     if not b2.get('ok'):
         return EMPTY_VIEW2
-    vs = coq_vars(c, b2['vars'], resv=False)
+    vs = coq_vars(c, b2['vars'], resv=False, text_units=True)
     data = '[' + '; '.join(C.zll(v['data']) for v in b2['vars']) + ']'
     return '{| s_ftype := %s; s_title := %s; s_vars := [%s]; s_taus := %s; s_data := %s |}' % (
         C.zlist(b2['ftype']), C.zlist(b2['title']), '; '.join(vs), C.zll(b2['taus']), data)
@@ -542,11 +543,12 @@ def coq_term(case, obs):
     mode = {'rw': 0, 'wr': 1, 'b2': 2}[case['mode']]
     # well-formed mode-0 cases give the library exactly the reference encoding: the words are not repeated in the term
     ws = obs.get('ws', []) if (mode == 0 and case.get('mut') is not None) else []
-    return '(Case %d %s %s %s %s %s %d %s %s %s %s %s %s %s %s)' % (
+    upool = C.zll([swords(u.ljust(40)[:40]) for u in pools(c)[1]]) if mode == 2 else '[]'
+    return '(Case %d %s %s %s %s %s %d %s %s %s %s %s %s %s %s %s)' % (
         mode, T, D, coq_file(c), C.zlist(ref), C.zlist(ws), obs.get('size', 0), C.cbool(case.get('mut') is not None),
         C.cbool(not case['noscale']), C.cbool(obs.get('open_ok', False)), coq_view(c, obs),
         C.cbool('written' in obs), C.zlist(obs.get('written', [])),
-        C.cbool(bool((obs.get('b2') or {}).get('ok'))), coq_view2(c, obs))
+        C.cbool(bool((obs.get('b2') or {}).get('ok'))), coq_view2(c, obs), upool)
 
 
 # ----------------------------------------------------------------------------- independent Python oracle
@@ -570,15 +572,7 @@ def py_lookup(tabs, tr):
     return str(tr['tid']), 1.0, tr['unit'].rstrip('\0').strip().encode('latin-1')
 
 
-def tables_complete(c):
-    td, dd = lookup_tables(c)
-    return all(tr['cat'].strip() in dd and (tr['tid'] + dd[tr['cat'].strip()]) in td for tr in c['tracers'])
-
-
 def region_of(case):
-    c = case['content']
-    if case['mode'] == 'b2' and not tables_complete(c):
-        return 1
     return 0
 
 
@@ -606,7 +600,9 @@ def py_check(case, obs):
                     continue
                 if v['data'] != w['data']:
                     why.append('bpch2 data differ for ' + v['key'])
-                for fld in ('key', 'scale', 'units', 'unit0', 'start', 'shape'):
+                if v['units'].get('s', v['units'].get('b')) != w['units'].get('s', w['units'].get('b')):   # text; str vs bytes is a type difference only
+                    why.append('bpch2 unit of %s is %r, bpch1 has %r' % (v['key'], v['units'], w['units']))
+                for fld in ('key', 'scale', 'unit0', 'start', 'shape'):
                     if v[fld] != w[fld]:
                         why.append('bpch2 %s of %s is %r, bpch1 has %r' % (fld, v['key'], v[fld], w[fld]))
             if b2['taus'] != obs['taus']:
